@@ -41,7 +41,11 @@ LEVEL_NOTE = ("Trusted: Coq kernel; the hand-written instances (C01/Ring.v, C07/
               "side; every component also checkpointed NESTED in containers - ModuleDict, a user nn.Module attribute, Sequential > "
               "module > ModuleDict - through the ROOT's state_dict() / load_state_dict(); in half of the cases state_dict() is the "
               "first call at step k with no observer call since construction, so the record is saved at write positions != 0; "
-              "state_dict() is taken twice and must be idempotent; the source that saved is compared with a twin that did not). Found by that protocol on the unchanged tree: the stale Accumulator.pos/.neg memo after a load (known finding "
+              "state_dict() is taken twice and must be idempotent; the source that saved is compared with a twin that did not; "
+              "end-of-episode clears (reducer clear keepshape True/False, layer.clear + trainer.clear, synapse / neuron clear) 0, 1 or 2 "
+              "steps before the checkpoint; restore targets that are copy.deepcopy replicas where deepcopy yields an independent "
+              "instance (the original must stay untouched by the load); float64 observations into float32 records with exact "
+              "value and dtype comparison of every state-dict entry and observer). Found by that protocol on the unchanged tree: the stale Accumulator.pos/.neg memo after a load (known finding "
               "C12-accumulator-cache-stale-after-load; the signature is given only when the implementation side verified equal "
               "non-zero pending-part counts, a getter read before the load and an observed value equal to the target's old "
               "reduction) and the derived buffers of a freshly constructed MaxRateClassifier (repaired in /repo; no tolerance). Interpretation: a checkpoint taken before the first step (k=0) is loaded into a fresh "
@@ -151,8 +155,6 @@ def gen_cases(rng, n):
             r = rng.random()
             if r < 0.3:
                 c["target_cleared"] = True
-            elif r < 0.45 and kk >= 2:
-                c["src_clear_at"] = rng.randint(1, kk - 1)     # the source itself was cleared before the checkpoint
             cases.append(c)
         elif kind in ("synapse", "neuron"):
             # a bare component of coq/C12/Components.v; no lazily shaped state, so ANY k into ANY prior (incl. 0) is in scope
@@ -191,6 +193,22 @@ def protocol_options(rng, c):
     c["nest"] = rng.choice([None, "moduledict", "attr", "deep"])
     # quiet source: no observer call before the state is saved at step k (dump() would align the record and tidy the state)
     c["quiet_source"] = rng.random() < 0.5
+    # restore targets that are copy.deepcopy replicas of a constructed instance (the original is kept and must stay untouched)
+    if rng.random() < 0.3:
+        c["target_copy"] = rng.choice(["fresh", "after_step"])
+    # end-of-episode clears of the SOURCE before the checkpoint: checkpoint 0, 1 or 2 steps after the clear
+    if c["kind"] in ("reducer", "layer", "synapse", "neuron") and rng.random() < 0.45:
+        key = {"reducer": "src_clear_at", "layer": "layer_clear_at"}.get(c["kind"], "clear_at")
+        kk = min(c["k"], c["T"])
+        c[key] = max(0, kk - rng.choice([0, 0, 1, 2]))
+        c["clear_keepshape"] = rng.random() < 0.65
+    # observations WIDER than the record: float64 inputs into float32 records (out-of-place writes must still convert)
+    if c["kind"] in ("reducer", "record", "synapse") and rng.random() < 0.35:
+        c["record_dtype"] = "float32"
+        if rng.random() < 0.7:
+            c["inplace"] = False
+            if "spec" in c:
+                c["spec"]["inplace"] = False
     if c.get("cls") in ADAPTIVE or ((c.get("spec") or {}).get("neuron") or {}).get("cls") in ADAPTIVE:
         # learned adaptation: prefer futures / targets that run with adaptation frozen (evaluation after training)
         c["modes"] = rng.choice(["eval_after_k", "eval_after_k", "mixed"])
@@ -238,6 +256,17 @@ def run(ctx):
             res[i + j * k] = r
     fails = [{"case": c, "detail": {a: b for a, b in r.items() if a != "trace"}, "signature": signature(c, r)}
              for c, r in zip(cases, res) if not r["ok"]]
+    # observed on the unchanged tree, outside the property's text (copy.deepcopy is not a checkpoint path) but relevant to it: a
+    # deepcopy replica of any component holding a ShapedTensor / RecordTensor is NOT an independent instance, so such replicas
+    # cannot serve as restore targets (the harness then falls back to a constructed target)
+    notes = Counter(nt.split(":")[0] for c, r in zip(cases, res) if r.get("ok") for nt in r.get("notes", []))
+    why = sorted({nt for c, r in zip(cases, res) if r.get("ok") for nt in r.get("notes", [])})[:12]
+    if notes:
+        print(f"FINDING-CANDIDATE: property={ID} (outside the property text, recorded only) copy.deepcopy of a component whose state lives in "
+              f"ShapedTensor / RecordTensor attributes is not an independent instance - the copied tensors keep a weak reference "
+              f"to the ORIGINAL owner, so stepping the replica writes the original; layers with registered cells cannot be "
+              f"deep-copied at all (WeakMethod). {sum(notes.values())} replica targets replaced by constructed ones; deepcopy targets used "
+              f"for: {sorted({c['kind'] for c, r in zip(cases, res) if c.get('target_copy') and r.get('ok') and not r.get('notes')})}")
     dist = Counter(c["kind"] + ":" + (c.get("trainer") or c.get("cls") or (c.get("spec") or {}).get("cls", "")) for c in cases)
     return {
         "evaluations": len(cases),
@@ -252,6 +281,7 @@ def run(ctx):
         "k_distribution": dict(Counter("k=0" if c["k"] == 0 else ("k=T" if c["k"] == c["T"] else "0<k<T") for c in cases if "k" in c)),
         "observers_per_case": dict(Counter(c["kind"] + ":" + str(r.get("observers", 0) // 10 * 10) + "+" for c, r in zip(cases, res) if r.get("ok") and c["kind"] != "fields")),
         "protocol_distribution": dict(Counter((c.get("second", "-") + ("/full" if c.get("second_full") else "") + ("/live" if c.get("transfer") else "") + "/" + c.get("modes", "-")) for c in cases if c["kind"] != "fields")),
+        "deepcopy_targets_unusable": dict(notes), "deepcopy_unusable_examples": why,
         "nesting_distribution": dict(Counter(str(c.get("nest")) + ("/quiet" if c.get("quiet_source") else "") for c in cases if c["kind"] != "fields")),
         "mismatches": mism, "oracle_failures": fails, "classes_with_field_tie": len(COMPONENTS), "traces_validated_against_impl": len(cases) - len(fails),
     }
